@@ -208,5 +208,6 @@ pub fn spec_c05() -> PropSpec {
         nt_rule: "",
         engine: "seq",
         runner: None,
+        decode: None,
     }
 }
